@@ -286,6 +286,23 @@ func TestVerifC14Start(t *testing.T) {
 				target = []string{"Nats", "vcr", "vdr_", "nats2"}[rng.Intn(4)] // no subscriber of that name
 			}
 			full := n1.jobsFull(refIdx)
+			// mostly aim at the subscriber with the MOST failed events (several removals in one call), with a matching prefix
+			if rng.Intn(3) > 0 {
+				cnt := map[int]int{}
+				best := -1
+				for _, j := range full {
+					if j.Retries >= 10 && j.Err == "generic" {
+						cnt[j.S]++
+						if best < 0 || cnt[j.S] > cnt[best] {
+							best = j.S
+						}
+					}
+				}
+				if best >= 0 {
+					target = c14sSubs[best].name
+					prefix = []string{"keeps", "k", "keeps failing", "keeps fail"}[rng.Intn(4)]
+				}
+			}
 			var order []int
 			for _, sub := range n1.network.Subscribers() {
 				for si, s := range c14sSubs {
